@@ -537,12 +537,20 @@ def mon_shutdown(case):
     shutdown_events = {}
     termed = set()
     announced = {}     # extension -> deadline (ms) announced in its SHUTDOWN event
+    reset_limit = None # explicit reset: the time it was requested + its budget (the deadline of the whole operation)
     for i, (ws, obs, side) in enumerate(case["steps"]):
         es = entries(obs)
         for x in side:
+            m = re.match(r"reset start budget=(\d+) @(\d+)", x)
+            if m:
+                reset_limit = int(m.group(2)) + int(m.group(1))
             m = re.match(r"deadline ext (\S+) shutdown (\d+)", x)
             if m:
                 announced[m.group(1)] = int(m.group(2))
+                if reset_limit is not None and int(m.group(2)) > reset_limit + 250:
+                    out.append(f"step {i+1}: the SHUTDOWN event of {m.group(1)} announces a deadline {int(m.group(2)) - reset_limit} ms after the deadline of the reset it belongs to")
+        if any(e.startswith("reset done") for e in es):
+            reset_limit = None
             m = re.match(r"sup exec:extension-(.*)-\d+ @", x)
             if m:
                 announced.pop(m.group(1), None)
